@@ -8,6 +8,10 @@ import (
 	"os"
 	"strconv"
 
+	"io"
+
+	"github.com/google/logger"
+
 	"verifharness/core"
 	"verifharness/props"
 )
@@ -19,9 +23,14 @@ var table = map[string]func(*core.Ctx){
 	"C14": props.C14,
 	"C11": props.C11,
 	"C04": props.C04,
+	"C07": props.C07,
+	"C01": props.C01,
+	"C02": props.C02,
+	"C03": props.C03,
 }
 
 func main() {
+	logger.Init("", false, false, io.Discard)
 	tier := flag.String("tier", "quick", "quick|thorough")
 	seed := flag.Int64("seed", 1, "PRNG seed")
 	replay := flag.String("replay", "", "replay file")
